@@ -152,7 +152,16 @@ pub fn gen_session(seed: u64, run: u64, thorough: bool) -> Session {
     let mut rng = Rng::new(mix(mix(seed, run), 15));
     let hash_seed = rng.next();
     let root = scratch_root("C15", seed, run);
-    let (tree, docs) = project_tree(&mut rng);
+    let (mut tree, docs) = project_tree(&mut rng);
+    // One session in eight: the project is born later - no gleam.toml while the first documents
+    // are opened (they are free-standing files then); it appears in mid-session and the next
+    // didOpen inside the directory makes the server load the package around the open documents.
+    let mut lrng = Rng::new(mix(mix(seed, run), 0x1A7E));
+    let late_manifest = lrng.chance(1, 8);
+    let manifest_text = tree.iter().find(|(p, _)| p == "gleam.toml").map(|(_, t)| t.clone()).unwrap_or_default();
+    if late_manifest {
+        tree.retain(|(p, _)| p != "gleam.toml");
+    }
     let root_uri = format!("file://{root}");
     let rich = rng.chance(1, 2);
     let mut ops = crate::lsp::preamble_caps(Some(&root_uri), rich);
@@ -181,7 +190,21 @@ pub fn gen_session(seed: u64, run: u64, thorough: bool) -> Session {
     let mut invalid_budget = rng.range(1, 4);
     let mut disk_budget = rng.range(0, 2);
     let mut closed: BTreeSet<String> = BTreeSet::new();
-    for _ in 0..nbody {
+    let born_at = lrng.below(nbody);
+    for round in 0..nbody {
+        if late_manifest && round == born_at {
+            ops.push(PlannedOp::tagged(Op::Disk(DiskOp::Write { path: "gleam.toml".into(), text: manifest_text.clone() }), "disk.manifest_appears"));
+            let unopened: Vec<&String> = docs.iter().filter(|d| !open_docs.contains(&uri_for(&root, d))).collect();
+            let (u, t) = if !unopened.is_empty() && lrng.chance(2, 3) {
+                { let d: &String = *lrng.pick(&unopened[..]); (uri_for(&root, d), gen_text(&mut lrng, 10)) }
+            } else {
+                (uri_for(&root, "gleam.toml"), manifest_text.clone())
+            };
+            ops.push(PlannedOp::tagged(Op::Open { uri: u, text: t }, "didOpen.discovers_package_of_open_documents"));
+            for u in &all_uris {
+                ops.push(PlannedOp::new(Op::ProbeText { uri: u.clone() }));
+            }
+        }
         let uri = rng.pick(&all_uris).clone();
         let choice = rng.below(20);
         match choice {
